@@ -272,7 +272,8 @@ def _footer(pv, dtype_list=None, truncated=False, shown=MAX_HEAD_COLS) -> str:
 	"""Generate footer line based on shape and dtypes."""
 	shape = pv.shape
 	if not shape:
-		return "# empty"
+		# an empty vector reports shape (): it gets the ordinary vector footer, with a count of 0
+		shape = (0,)
 	
 	if len(shape) == 1:
 		if pv._dtype:
@@ -419,6 +420,8 @@ def _repr_table(tbl) -> str:
 def _printr(pv) -> str:
 	"""Entry point used by Vector.__repr__ and Table.__repr__."""
 	nd = len(pv.shape)
+	if nd == 0:
+		return _footer(pv)  # empty vector: nothing to list, the footer states count and dtype
 	if nd == 1:
 		return _repr_vector(pv)
 	if nd == 2:
